@@ -518,36 +518,38 @@ fn events_background_case(pre: &'static str, line: &'static str, ok: bool, want:
     core::mem::forget(st);
 }
 
-fn events_background_lines() {
-    match kani::any::<u8>() % 16 {
-        // a video name is judged by its last three BYTES: no dot needed, longer "extensions"
-        // ending in a video suffix count as video, non-ASCII names must not panic
-        12 => events_background_case("old.png", "Video,0,\"cover\"", true, "cover"),
-        13 => events_background_case("old.png", "1,0,\"intro.xMP4\"", true, "old.png"),
-        14 => events_background_case("old.png", "Video,0,\"na\u{ef}ve\"", true, "na\u{ef}ve"),
-        15 => events_background_case("old.png", "Video,0,\"a.\"", true, "old.png"),
-        // a background line always sets the background
+fn events_background_lines_a() {
+    match kani::any::<u8>() % 8 {
         0 => events_background_case("old.png", "0,0,\"bg.jpg\",0,0", true, "bg.jpg"),
         1 => events_background_case("", "Background,0,bg.jpg", true, "bg.jpg"),
-        // a video with an image extension is a background; a real video is not
         2 => events_background_case("old.png", "Video,0,\"clip.JPG\"", true, "clip.JPG"),
         3 => events_background_case("old.png", "1,0,\"clip.mp4\"", true, "old.png"),
         4 => events_background_case("old.png", "Video,0,\"clip.AVI\"", true, "old.png"),
-        // the first sprite fills an empty background only
         5 => events_background_case("", "Sprite,Background,Centre,\"sb\\\\a.png\",320,240", true, "sb/a.png"),
         6 => events_background_case("old.png", "4,Background,Centre,\"sb/a.png\",320,240", true, "old.png"),
-        7 => events_background_case("", "Sprite,Background,Centre", false, ""),
-        // other event types and malformed lines change nothing
-        8 => events_background_case("old.png", "Sample,0,0,\"a.wav\",100", true, "old.png"),
-        9 => events_background_case("old.png", "9,0,x", false, "old.png"),
-        10 => events_background_case("old.png", "0,0", false, "old.png"),
-        _ => events_background_case("old.png", "3,100,163,162,255", true, "old.png"),
+        _ => events_background_case("", "Sprite,Background,Centre", false, ""),
     }
     kani::cover!(true, "reached");
 }
 
-// @verif property=C11,C06,C01 tier=quick timeout=1200 mem=16 bounds="[Events] background / video / sprite / other lines: 16 concrete lines x concrete previous background (precedence rule)"
-oracle_proof!(c11_ev_background, 48, events_background_lines());
+fn events_background_lines_b() {
+    match kani::any::<u8>() % 8 {
+        0 => events_background_case("old.png", "Sample,0,0,\"a.wav\",100", true, "old.png"),
+        1 => events_background_case("old.png", "9,0,x", false, "old.png"),
+        2 => events_background_case("old.png", "0,0", false, "old.png"),
+        3 => events_background_case("old.png", "3,100,163,162,255", true, "old.png"),
+        4 => events_background_case("old.png", "Video,0,\"cover\"", true, "cover"),
+        5 => events_background_case("old.png", "1,0,\"intro.xMP4\"", true, "old.png"),
+        6 => events_background_case("old.png", "Video,0,\"na\u{ef}ve\"", true, "na\u{ef}ve"),
+        _ => events_background_case("old.png", "Video,0,\"a.\"", true, "old.png"),
+    }
+    kani::cover!(true, "reached");
+}
+
+// @verif property=C11,C06,C01 tier=quick timeout=1500 mem=16 bounds="[Events] background / video / sprite lines: 8 concrete lines x concrete previous background (precedence rule)"
+oracle_proof!(c11_ev_background_a, 48, events_background_lines_a());
+// @verif property=C11,C06,C01 tier=quick timeout=1500 mem=16 bounds="[Events] other event types, malformed lines, video names without dot / with long extension / non-ASCII / shorter than 3 bytes: 8 concrete lines"
+oracle_proof!(c11_ev_background_b, 48, events_background_lines_b());
 
 /// Colours: R,G,B with optional ignored alpha; wrong field counts and bad numbers are rejected.
 fn colors_line(template: &'static str, fields: usize, named: bool) {
